@@ -58,6 +58,8 @@ def strategy_impl(draw, tier):
         "dims": order,
         "values": values,
         "reverse_mappings": draw(st.booleans()),
+        "decoy_first": draw(st.booleans()),
+        "layout": draw(st.sampled_from(["C", "C", "F", "view"])),
     }
 
 
@@ -142,8 +144,13 @@ def check(case, ctx):
     # (2) padding model
     dims = list(case["dims"])
     exp, comparable = model_pad(case["values"], dims, case, by_name, rules, fills)
-    da = build.data_array(case["values"], dims)
+    da = build.data_array(case["values"], dims, layout=case.get("layout", "C"))
     bw = {n: tuple(w) for n, w in case["widths"].items()}
+    if case.get("decoy_first"):
+        # another Grid on the same dataset with other settings is built and used first: nothing of it may leak
+        decoy = build.make_grid(ds, axes, periodic=True, boundary="extend", fill_value=-55.0)
+        pad(da, decoy, boundary_width=dict(bw), boundary="fill", fill_value=66.0)
+        pad(da, decoy, boundary_width=dict(bw))
 
     rev = bool(case.get("reverse_mappings"))
 
